@@ -30,6 +30,7 @@ type Contract struct {
 	NoInline bool
 	Appends  []*Clause // slices whose spare capacity this function is declared to own
 	HeapFacts bool // opt-in: quantified well-typed-heap axioms and operand-side append facts
+	HeapFactTypes []string // optional: only the heaps of these types get the axioms
 	Entry    []*EntryGhost
 	Exit     []*EntryGhost
 	Assumed  string
@@ -302,6 +303,11 @@ func parseContracts(path string) (*Contracts, error) {
 				cur.NoInline = true
 			case "heapfacts":
 				cur.HeapFacts = true
+				for _, t := range strings.Split(r.text, ",") {
+					if t = strings.TrimSpace(t); t != "" {
+						cur.HeapFactTypes = append(cur.HeapFactTypes, t)
+					}
+				}
 			case "may_panic":
 				cur.MayPanic = true
 			case "trusted":
